@@ -94,9 +94,11 @@ theorem eavSetup_agree (be1 be2 : Backend) (s1 s2 : State) (hs : Same s1 s2) (h1
 (return codes, verdict, error code, message, result record) and corresponding states again -/
 theorem backends_agree (be1 be2 : Backend) (b : Build) (s1 s2 : State) (op : Op)
     (hs : Same s1 s2) (h1 : C13.Inv be1 s1) (h2 : C13.Inv be2 s2)
+    (hop : ∀ r, op ≠ .setupFail r)          -- a context that cannot be created is an event of ONE back end, not an operation of the caller
     (t1 : State) (o : Out) (h : step be1 b s1 op = .ok (t1, o)) :
     ∃ t2, step be2 b s2 op = .ok (t2, o) ∧ Same t1 t2 := by
   cases op with
+  | setupFail r => exact absurd rfl (hop r)
   | init =>
     simp only [step, Except.ok.injEq, Prod.mk.injEq] at h ⊢
     obtain ⟨rfl, rfl⟩ := h
